@@ -29,6 +29,11 @@ type c13Case struct {
 	Pos    int    `json:"pos"`    // bit position (flip) or length (prefix)
 	Extra  []byte `json:"extra"`  // trailing bytes (extend) / replacement (random)
 	Linger bool   `json:"linger"` // re-check the marker 200 ms later
+	// Second verification of the same path (mode exact only): the file is rewritten between two
+	// Starts with content of the same length, optionally with its old modification time restored.
+	// "good-bad": verified and run once, then tampered; "bad-good": tampered first, then the right file.
+	Swap      string `json:"swap,omitempty"`
+	KeepMtime bool   `json:"keep_mtime,omitempty"`
 }
 
 func c13Hash(name string) hash.Hash {
@@ -73,6 +78,10 @@ func c13Gen(t *rapid.T) any {
 		c.Extra = rapid.SliceOfN(rapid.Byte(), size, size).Draw(t, "random")
 	}
 	c.Linger = rapid.IntRange(0, 39).Draw(t, "linger") == 0
+	if c.Mode == "exact" && c.Hash != "nil" && pct(t, "swap", 50) {
+		c.Swap = oneOf(t, "swapkind", []string{"good-bad", "bad-good"})
+		c.KeepMtime = pct(t, "keepmtime", 70)
+	}
 	return c
 }
 
@@ -153,11 +162,52 @@ func c13Run(ci any) (out Outcome) {
 		out.label("expect:%s", wantErr.Error())
 	}
 
+	if c.Swap == "" {
+		c13Start(c, exe, marker, onDisk, c.Mode == "missing", checksum, digest, wantErr, &out)
+		return
+	}
+	// a history on one path: same length, one byte different, (optionally) the same mtime
+	out.label("swap:%s", c.Swap)
+	out.label("keep_mtime:%v", c.KeepMtime)
+	tampered := append([]byte{}, content...)
+	tampered[len(tampered)-1] ^= 0x01 // inside the trailing comment: still a runnable script
+	first, second := content, tampered
+	var firstErr, secondErr error = nil, plugin.ErrChecksumsDoNotMatch
+	if c.Swap == "bad-good" {
+		first, second = tampered, content
+		firstErr, secondErr = plugin.ErrChecksumsDoNotMatch, nil
+	}
+	old := time.Now().Add(-time.Hour).Truncate(time.Second)
+	stamp := func() {
+		if c.KeepMtime {
+			if err := os.Chtimes(exe, old, old); err != nil {
+				panic(err)
+			}
+		}
+	}
+	if !c13Start(c, exe, marker, first, false, checksum, digest, firstErr, &out, stamp) {
+		return
+	}
+	os.Remove(marker)
+	c13Start(c, exe, marker, second, false, checksum, digest, secondErr, &out, stamp)
+	if out.Violation != "" {
+		out.Violation = "second verification of the same path (" + c.Swap + fmt.Sprintf(", mtime kept=%v): ", c.KeepMtime) + out.Violation
+	}
+	return
+}
+
+// c13Start writes onDisk to exe (unless missing), starts a client with the SecureConfig and judges
+// the outcome against wantErr; it reports whether the expectation held.
+func c13Start(c *c13Case, exe, marker string, onDisk []byte, missing bool, checksum, digest []byte, wantErr error, outp *Outcome, afterWrite ...func()) bool {
+	out := outp
 	for attempt := 0; ; attempt++ {
 		os.Remove(exe)
-		if c.Mode != "missing" {
+		if !missing {
 			if err := os.WriteFile(exe, onDisk, 0o755); err != nil {
 				panic(err)
+			}
+			for _, f := range afterWrite {
+				f()
 			}
 		}
 		cmd := exec.Command(exe)
@@ -174,7 +224,7 @@ func c13Run(ci any) (out Outcome) {
 		el, ok := within(20*time.Second, func() { addr, err = cl.Start() })
 		if !ok {
 			out.Slow = fmt.Sprintf("Start did not return within %v", el)
-			return
+			return false
 		}
 		launched := cmd.Process != nil
 		if err != nil && strings.Contains(err.Error(), "text file busy") && attempt < 4 {
@@ -194,33 +244,33 @@ func c13Run(ci any) (out Outcome) {
 		if wantErr != nil {
 			if launched || markerSeen {
 				out.violate("binary was executed although checksum %x != digest %x (hash %s, mode %s): launched=%v marker=%v err=%v", checksum, digest, c.Hash, c.Mode, launched, markerSeen, err)
-				return
+				return false
 			}
 			if err == nil {
 				out.violate("Start returned no error (addr %v) for a non-matching SecureConfig (mode %s)", addr, c.Mode)
-				return
+				return false
 			}
 			// "the corresponding error": the sentinel itself or, where the library
 			// wraps it textually, an error naming it.
 			if wantErr == errFileMissing {
-				return // any error will do for a missing file; nothing may have been executed (checked above)
+				return true // any error will do for a missing file; nothing may have been executed (checked above)
 			}
 			if !errors.Is(err, wantErr) && !strings.Contains(err.Error(), wantErr.Error()) {
 				out.violate("wrong error for mode %s: got %q, want %q", c.Mode, err, wantErr)
 			}
-			return
+			return out.Violation == ""
 		}
 		// matching checksum: the binary must have been executed
 		if !launched {
 			out.violate("checksum equals the digest but the binary was not executed: err=%v", err)
-			return
+			return false
 		}
 		for _, s := range []error{plugin.ErrChecksumsDoNotMatch, plugin.ErrSecureConfigNoChecksum, plugin.ErrSecureConfigNoHash} {
 			if err != nil && (errors.Is(err, s) || strings.Contains(err.Error(), s.Error())) {
 				out.violate("checksum equals the digest but Start reported %q", err)
 			}
 		}
-		return
+		return out.Violation == ""
 	}
 }
 
@@ -230,7 +280,7 @@ var propC13 = register(&Prop{
 	New: func() any { return &c13Case{} },
 	Run: c13Run,
 	Rule: "rapid draws (script tail bytes 0..70000, hash in md5/sha1/sha256/sha512/nil, checksum mode in exact/one-bit-flip at drawn position/" +
-		"proper prefix of drawn length/extended by 1..8 bytes/random same length/empty/nil/digest of another hash); oracle: differential against the " +
+		"proper prefix of drawn length/extended by 1..8 bytes/random same length/empty/nil/digest of another hash; missing file; file replaced after the digest was taken; two verifications of one path with a same-length rewrite in between, old mtime restored or not, good-then-tampered and tampered-then-good); oracle: differential against the " +
 		"harness's own digest: executed (exec.Cmd.Process set or launch marker written) <=> checksum == digest, else the matching sentinel error. " +
 		"Non-trivial: checksum equals the digest, or differs but shares a >=1 byte prefix with it. Distinct by full case.",
 	Assumptions: []string{"a fresh hash.Hash per SecureConfig (documented use)", "launch is observed through exec.Cmd.Process and a marker file written by the target script"},
